@@ -1,3 +1,6 @@
+import Mathlib.Tactic
+import OpacusLean.Generated.AdaClip
+import OpacusLean.Lemmas.AdaClipReal
 import OpacusLean.Lemmas.AdaClipMachine
 import OpacusLean.Model.AdaClipFloat
 /-! # C20 — adaptive clipping follows its update rule and its cost is fully accounted
@@ -519,5 +522,37 @@ theorem adaclip_float_witness :
     (sigmaDelta (1.0 : Float) 1.0).toBits = 0x3FF279A74590331D ∧
     (sigmaDelta (1.0 : Float) (Float.ofNat 32 / 20.0)).toBits = 0x3FF0D7F3C53851C3 := by
   decide +kernel
+
+/-! ## The tie to the source: `adaclipoptimizer.py` re-translated on every run -/
+section generatedTie
+set_option linter.unusedTactic false
+set_option linter.unreachableTactic false
+set_option linter.unusedVariables false
+theorem inv_sqrt_congr {a b : ℝ} (h : a = b) : (Real.sqrt a)⁻¹ = 1 / Real.sqrt b := by rw [h, one_div]
+theorem one_div_sqrt_congr {a b : ℝ} (h : a = b) : 1 / Real.sqrt a = 1 / Real.sqrt b := by rw [h]
+
+/-- the tie to the source: the noise split written in `AdaClipDPOptimizer.__init__` and the whole
+`update_max_grad_norm`, re-translated from `opacus/optimizers/adaclipoptimizer.py` on every run, are the model's
+`sigmaDelta` and `Ada.clamp ∘ geoUpdate` over ℝ (`lo < hi` is what the constructor asserts; the proofs tolerate
+equivalent spellings of the arithmetic and either order of the two clamp tests) -/
+theorem generated_adaclip_eq_model (σ σb C η γ lo hi noisy ss : ℝ) (hb : lo < hi) :
+    Opacus.Generated.AdaClip.noiseSplit σ σb = sigmaDelta σ σb ∧
+    Opacus.Generated.AdaClip.updateMaxGradNorm C η γ lo hi noisy ss = Ada.clamp lo hi (geoUpdate C η γ (noisy / ss)) := by
+  constructor
+  · show _ = ((1 : ℕ) : ℝ) / Real.sqrt (((1 : ℕ) : ℝ) / (σ * σ) - ((1 : ℕ) : ℝ) / ((((2 : ℕ) : ℝ) * σb) * (((2 : ℕ) : ℝ) * σb)))
+    first
+      | rfl
+      | (simp only [Opacus.Generated.AdaClip.noiseSplit]; norm_num [sq, one_div]; done)
+      | (simp only [Opacus.Generated.AdaClip.noiseSplit]
+         push_cast
+         first | apply inv_sqrt_congr | apply one_div_sqrt_congr
+         ring)
+  · show _ = Ada.clamp lo hi (C * Real.exp ((-η) * (noisy / ss - γ)))
+    first
+      | rfl
+      | (simp only [Opacus.Generated.AdaClip.updateMaxGradNorm, Ada.clamp]; done)
+      | (simp only [Opacus.Generated.AdaClip.updateMaxGradNorm, Ada.clamp]
+         split_ifs <;> first | rfl | (exfalso; linarith) | (simp_all <;> done) | (simp_all; ring_nf))
+end generatedTie
 
 end Opacus.C20
